@@ -71,9 +71,11 @@ package mmu
 // [a, a+n) and [b, b+c) share no address (mathematical integers; an empty range overlaps nothing)
 //@ pred disj(a, n, b, c) = n <= 0 || c <= 0 || int(a) + int(n) <= int(b) || int(b) + int(c) <= int(a)
 // every page of the table has the MMU's page size and starts on a multiple of it
-//@ pred ptUniform(m) = forall k int :: ptIn[tbl(m)][k] == 1 ==> ptSz[tbl(m)][k] == psz(m) && ptPA[tbl(m)][k] == ptFr[tbl(m)][k] * psz(m)
+//@ pred ptUniformP(t, ps) = forall k int :: ptIn[t][k] == 1 ==> ptSz[t][k] == ps && ptPA[t][k] == ptFr[t][k] * ps
+//@ pred ptUniform(m) = ptUniformP(tbl(m), psz(m))
 // the frame [r, r+pageSize) is disjoint from every page of the table
-//@ pred frameFree(m, r) = forall k int :: ptIn[tbl(m)][k] == 1 ==> disj(r, psz(m), ptPA[tbl(m)][k], ptSz[tbl(m)][k])
+//@ pred frameFreeP(t, r, ps) = forall k int :: ptIn[t][k] == 1 ==> disj(r, ps, ptPA[t][k], ptSz[t][k])
+//@ pred frameFree(m, r) = frameFreeP(tbl(m), r, psz(m))
 
 //@ fn (*translationMW).pageTable
 //@   property C27
@@ -97,3 +99,220 @@ package mmu
 //@   label C27.alloc.cursor
 //@   ensures int(result) + psz(m) <= MaxUint64 ==> m.comp.State.NextPhysicalPage == int(result) + psz(m)
 //@   assigns m.comp.State.NextPhysicalPage
+
+// createDefaultPage: the page built for (pid, vAddr) is filed under the MMU-aligned address, has the MMU's page size and
+// the freshly allocated frame.
+//@ fn (*translationMW).createDefaultPage
+//@   property C27
+//@   requires mmuPT(m)
+//@   label C27.default.key
+//@   ensures result.PID == pid && result.VAddr == alignTo(vAddr, lg(m))
+//@   label C27.default.size
+//@   ensures result.PageSize == psz(m)
+//@   label C27.default.flags
+//@   ensures result.Valid && result.DeviceID == deviceID && result.Unified && !result.IsMigrating && !result.IsPinned
+//@   label C27.default.aligned
+//@   ensures alignTo(result.PAddr, lg(m)) == result.PAddr && int(result.PAddr) == (int(result.PAddr) >> int(lg(m))) * psz(m)
+//@   label C27.default.probe
+//@   ensures forall k int :: ptIn[tbl(m)][k] == 1 ==> ptPA[tbl(m)][k] != result.PAddr
+//@   label C27.default.disjoint.uniform
+//@   ensures ptUniform(m) ==> frameFree(m, result.PAddr)
+//@   label C27.default.disjoint
+//@   ensures frameFree(m, result.PAddr)
+//@   label C27.default.cursor
+//@   ensures int(result.PAddr) + psz(m) <= MaxUint64 ==> m.comp.State.NextPhysicalPage == int(result.PAddr) + psz(m)
+//@   assigns m.comp.State.NextPhysicalPage
+
+// ---- ports, ID generator, tracing: same ghosts and the same TRUSTED contracts as /verif/contracts/mem/rob/zz_contracts_C21_verif.go
+// (same names, same meaning; repeated verbatim so that this file stands alone) ----
+//@ ghost var canSend set
+//@ ghost var sendCnt map
+//@ ghost var sentTyp map2
+//@ ghost var sentVal map2
+//@ ghost var issued set
+//@ iface messaging.Port.CanSend()
+//@   trusted
+//@   ensures result <==> canSend[ifaceval(self)]
+//@   assigns nothing
+//@ iface messaging.Port.Send(msg)
+//@   trusted
+//@   panics !canSend[ifaceval(self)]
+//@   ensures sendCnt == upd(old(sendCnt), ifaceval(self), old(sendCnt)[ifaceval(self)] + 1)
+//@   ensures sentTyp == upd(old(sentTyp), ifaceval(self), upd(old(sentTyp)[ifaceval(self)], old(sendCnt)[ifaceval(self)], typeid(msg)))
+//@   ensures sentVal == upd(old(sentVal), ifaceval(self), upd(old(sentVal)[ifaceval(self)], old(sendCnt)[ifaceval(self)], ifaceval(msg)))
+//@   assigns canSend, sendCnt, sentTyp, sentVal
+//@ ufunc portRemote(p) int
+//@ iface messaging.Port.AsRemote()
+//@   trusted
+//@   assigns nothing
+//@   ensures result == portRemote(self)
+//@ ext messaging.(PortOwnerBase).GetPortByName(po, name)
+//@   trusted
+//@   pure
+//@   panics !(name in po.ports)
+//@   ensures result == po.ports[name]
+//@ ext modeling.(*TickingComponent).Name(c)
+//@   trusted
+//@   pure
+//@ ext tracing.AddMilestone(domain, ms)
+//@   trusted
+//@   assigns nothing
+//@ ext tracing.EndTask(domain, end)
+//@   trusted
+//@   assigns nothing
+//@ ext tracing.ForgetMsgIDAtReceiver(msgID, domain)
+//@   trusted
+//@   assigns nothing
+//@ iface timing.IDGenerator.Generate()
+//@   trusted
+//@   ensures !old(issued)[result] && issued == upd(old(issued), result, true)
+//@   assigns issued, key("O|timing.sequentialIDGenerator|nextID"), key("O|timing.parallelIDGenerator|nextID")
+//@ pred idGenOK() = timing.idGeneratorInstantiated ==> timing.idGenerator != nil
+
+//@ func topP(m) = ifaceval(m.comp.TickingComponent.PortOwnerBase.ports["Top"])
+//@ pred mmuWF(m) = mmuPT(m) && m.comp.TickingComponent != nil && m.comp.TickingComponent.PortOwnerBase != nil && ("Top" in m.comp.TickingComponent.PortOwnerBase.ports)
+
+//@ fn (*translationMW).topPort
+//@   property C27
+//@   requires mmuWF(m)
+//@   label C27.topport
+//@   ensures result == m.comp.TickingComponent.PortOwnerBase.ports["Top"]
+//@   assigns nothing
+
+//@ fn (*translationMW).traceReqComplete
+//@   property C27
+//@   requires m != nil && m.comp != nil
+//@   assigns nothing
+
+// doPageWalkHit answers the walk when the Top port has room: it reads the walk's entry, sends one response that carries the
+// entry's page and queues the entry for removal. It never touches the page table, the allocation cursor or the walks.
+//@ func walk(m, i) = m.comp.State.WalkingTranslations[i]
+//@ fn (*translationMW).doPageWalkHit
+//@   property C27
+//@   requires mmuWF(m) && idGenOK() && 0 <= walkingIndex && walkingIndex < len(m.comp.State.WalkingTranslations)
+//@   label C27.hit.result
+//@   ensures result <==> old(canSend)[topP(m)]
+//@   label C27.hit.sent
+//@   ensures result ==> sendCnt[topP(m)] == old(sendCnt)[topP(m)] + 1 && hastype(mkiface(sentTyp[topP(m)][old(sendCnt)[topP(m)]], sentVal[topP(m)][old(sendCnt)[topP(m)]]), "vmprotocol.TranslationRsp")
+//@   label C27.hit.page
+//@   ensures result ==> as(mkiface(sentTyp[topP(m)][old(sendCnt)[topP(m)]], sentVal[topP(m)][old(sendCnt)[topP(m)]]), "vmprotocol.TranslationRsp").Page == walk(m, walkingIndex).Page
+//@   label C27.hit.rspto
+//@   ensures result ==> as(mkiface(sentTyp[topP(m)][old(sendCnt)[topP(m)]], sentVal[topP(m)][old(sendCnt)[topP(m)]]), "vmprotocol.TranslationRsp").MsgMeta.RspTo == walk(m, walkingIndex).ReqID && as(mkiface(sentTyp[topP(m)][old(sendCnt)[topP(m)]], sentVal[topP(m)][old(sendCnt)[topP(m)]]), "vmprotocol.TranslationRsp").MsgMeta.Dst == walk(m, walkingIndex).ReqSrc
+//@   label C27.hit.silent
+//@   ensures !result ==> sendCnt == old(sendCnt) && len(m.comp.State.ToRemoveFromPTW) == old(len(m.comp.State.ToRemoveFromPTW))
+//@   label C27.hit.queued
+//@   ensures result ==> len(m.comp.State.ToRemoveFromPTW) == old(len(m.comp.State.ToRemoveFromPTW)) + 1 && m.comp.State.ToRemoveFromPTW[old(len(m.comp.State.ToRemoveFromPTW))] == walkingIndex
+//@   label C27.hit.queue.place
+//@   ensures (ref(m.comp.State.ToRemoveFromPTW) == old(ref(m.comp.State.ToRemoveFromPTW)) && off(m.comp.State.ToRemoveFromPTW) == old(off(m.comp.State.ToRemoveFromPTW))) || fresh(m.comp.State.ToRemoveFromPTW)
+//@   label C27.hit.idgen
+//@   ensures idGenOK()
+//@   assigns m.comp.State.ToRemoveFromPTW, elems(m.comp.State.ToRemoveFromPTW), canSend, sendCnt, sentTyp, sentVal, issued, key("G|github.com/sarchlab/akita/v5/timing.idGenerator|"), key("G|github.com/sarchlab/akita/v5/timing.idGeneratorInstantiated|"), key("O|timing.sequentialIDGenerator|nextID"), key("O|timing.parallelIDGenerator|nextID")
+
+// ---- finalizePageWalk: the end of one page walk ----
+// wkey: the flat key of the page the walk is about, aligned with the MMU's page size. The table aligns Find's address with
+// its own exponent ptLog2; Builder.Build (validatePageTablePageSize) refuses a table whose exponent differs from the MMU's.
+//@ func wkey(m, i) = pk(m.comp.State.WalkingTranslations[i].PID, alignTo(m.comp.State.WalkingTranslations[i].VAddr, m.comp.spec.Log2PageSize))
+// the frame [r, r+ps) is disjoint from every page of table t other than the one filed under k0
+//@ pred frameFreeExceptP(t, r, ps, k0) = forall k int :: k != k0 && ptIn[t][k] == 1 ==> disj(r, ps, ptPA[t][k], ptSz[t][k])
+// the view of table t differs from its entry value at key k0 only
+//@ pred onlyKeyP(t, k0) = ptIn == upd(old(ptIn), t, upd(old(ptIn)[t], k0, ptIn[t][k0])) && ptPA == upd(old(ptPA), t, upd(old(ptPA)[t], k0, ptPA[t][k0])) && ptSz == upd(old(ptSz), t, upd(old(ptSz)[t], k0, ptSz[t][k0])) && ptFr == upd(old(ptFr), t, upd(old(ptFr)[t], k0, ptFr[t][k0]))
+// no two pages of the table overlap
+//@ pred noAliasP(t) = forall j int, k int :: j != k && ptIn[t][j] == 1 && ptIn[t][k] == 1 ==> disj(ptPA[t][j], ptSz[t][j], ptPA[t][k], ptSz[t][k])
+
+//@ fn (*translationMW).finalizePageWalk
+//@   property C27
+//@   requires mmuWF(m) && idGenOK() && 0 <= walkingIndex && walkingIndex < len(m.comp.State.WalkingTranslations)
+//@   requires ptLog2(tbl(m)) == m.comp.spec.Log2PageSize
+//@   panics ptIn[tbl(m)][wkey(m, walkingIndex)] != 1 && !m.comp.spec.AutoPageAllocation
+//@   label C27.walk.found.noinsert
+//@   ensures old(ptIn[tbl(m)][wkey(m, walkingIndex)]) == 1 ==> ptIn == old(ptIn) && ptPA == old(ptPA) && ptSz == old(ptSz) && ptFr == old(ptFr) && ptInsN == old(ptInsN) && m.comp.State.NextPhysicalPage == old(m.comp.State.NextPhysicalPage)
+//@   label C27.walk.miss.oneinsert
+//@   ensures old(ptIn[tbl(m)][wkey(m, walkingIndex)]) != 1 ==> ptInsN == upd(old(ptInsN), tbl(m), old(ptInsN)[tbl(m)] + 1) && onlyKeyP(tbl(m), wkey(m, walkingIndex))
+//@   label C27.walk.miss.page
+//@   ensures old(ptIn[tbl(m)][wkey(m, walkingIndex)]) != 1 ==> ptSz[tbl(m)][wkey(m, walkingIndex)] == psz(m) && alignTo(ptPA[tbl(m)][wkey(m, walkingIndex)], lg(m)) == ptPA[tbl(m)][wkey(m, walkingIndex)]
+//@   label C27.walk.miss.frame
+//@   ensures old(ptIn[tbl(m)][wkey(m, walkingIndex)]) != 1 ==> ptPA[tbl(m)][wkey(m, walkingIndex)] == ptFr[tbl(m)][wkey(m, walkingIndex)] * psz(m)
+//@   label C27.walk.miss.disjoint.uniform
+//@   ensures old(ptIn[tbl(m)][wkey(m, walkingIndex)]) != 1 && old(ptUniform(m)) ==> frameFreeExceptP(tbl(m), ptPA[tbl(m)][wkey(m, walkingIndex)], psz(m), wkey(m, walkingIndex))
+//@   label C27.walk.miss.disjoint
+//@   ensures old(ptIn[tbl(m)][wkey(m, walkingIndex)]) != 1 ==> frameFreeExceptP(tbl(m), ptPA[tbl(m)][wkey(m, walkingIndex)], psz(m), wkey(m, walkingIndex))
+//@   label C27.walk.mapped
+//@   ensures ptIn[tbl(m)][wkey(m, walkingIndex)] == 1
+//@   label C27.walk.answer
+//@   ensures walk(m, walkingIndex).Page.PAddr == ptPA[tbl(m)][wkey(m, walkingIndex)] && walk(m, walkingIndex).Page.PageSize == ptSz[tbl(m)][wkey(m, walkingIndex)] && walk(m, walkingIndex).Page.PID == walk(m, walkingIndex).PID && walk(m, walkingIndex).Page.VAddr == alignTo(walk(m, walkingIndex).VAddr, lg(m))
+//@   label C27.walk.uniform.kept
+//@   ensures old(ptUniform(m)) ==> ptUniform(m)
+//@   label C27.walk.noalias.kept.uniform
+//@   ensures old(ptUniform(m)) && old(noAliasP(tbl(m))) ==> noAliasP(tbl(m))
+//@   label C27.walk.queue.place
+//@   ensures (ref(m.comp.State.ToRemoveFromPTW) == old(ref(m.comp.State.ToRemoveFromPTW)) && off(m.comp.State.ToRemoveFromPTW) == old(off(m.comp.State.ToRemoveFromPTW))) || fresh(m.comp.State.ToRemoveFromPTW)
+//@   label C27.walk.idgen
+//@   ensures idGenOK()
+//@   assigns m.comp.State.WalkingTranslations[walkingIndex].Page, m.comp.State.NextPhysicalPage, ptIn, ptPA, ptSz, ptFr, ptInsN, m.comp.State.ToRemoveFromPTW, elems(m.comp.State.ToRemoveFromPTW), canSend, sendCnt, sentTyp, sentVal, issued, key("G|github.com/sarchlab/akita/v5/timing.idGenerator|"), key("G|github.com/sarchlab/akita/v5/timing.idGeneratorInstantiated|"), key("O|timing.sequentialIDGenerator|nextID"), key("O|timing.parallelIDGenerator|nextID")
+
+// ---- walkPageTable: one tick of all walks (several walks may be about the same page) ----
+//@ fn (*translationMW).toRemove
+//@   property C27
+//@   requires m != nil && m.comp != nil
+//@   label C27.toremove.hit
+//@   ensures result ==> 0 <= at && at < len(m.comp.State.ToRemoveFromPTW) && m.comp.State.ToRemoveFromPTW[at] == index
+//@   label C27.toremove.miss
+//@   ensures !result ==> (forall j in 0..len(m.comp.State.ToRemoveFromPTW) :: m.comp.State.ToRemoveFromPTW[j] != index)
+//@   witness at int = i
+//@   assigns nothing
+//@   loop 0: invariant 0 <= i && i <= len(m.comp.State.ToRemoveFromPTW)
+//@   loop 0: invariant forall j in 0..i :: m.comp.State.ToRemoveFromPTW[j] != index
+
+// the table only grows: a mapping that exists is never replaced, moved or resized
+//@ pred growsP(t) = forall k int :: old(ptIn)[t][k] == 1 ==> ptIn[t][k] == 1 && ptPA[t][k] == old(ptPA)[t][k] && ptSz[t][k] == old(ptSz)[t][k] && ptFr[t][k] == old(ptFr)[t][k]
+// every mapping added since entry has the MMU's page size and an aligned frame
+//@ pred addedUniformP(t, ps) = forall k int :: ptIn[t][k] == 1 && old(ptIn)[t][k] != 1 ==> ptSz[t][k] == ps && ptPA[t][k] == ptFr[t][k] * ps
+// other tables are untouched
+//@ pred otherTablesP(t) = forall u int :: u != t ==> ptIn[u] == old(ptIn)[u] && ptPA[u] == old(ptPA)[u] && ptSz[u] == old(ptSz)[u] && ptFr[u] == old(ptFr)[u] && ptInsN[u] == old(ptInsN)[u]
+
+//@ fn (*translationMW).walkPageTable
+//@   property C27
+//@   requires mmuWF(m) && idGenOK() && m.comp.spec.AutoPageAllocation
+//@   requires ptLog2(tbl(m)) == m.comp.spec.Log2PageSize
+//@   label C27.tick.grows
+//@   ensures growsP(tbl(m))
+//@   label C27.tick.inserts
+//@   ensures old(ptInsN)[tbl(m)] <= ptInsN[tbl(m)] && ptInsN[tbl(m)] <= old(ptInsN)[tbl(m)] + old(len(m.comp.State.WalkingTranslations))
+//@   label C27.tick.added
+//@   ensures addedUniformP(tbl(m), psz(m))
+//@   label C27.tick.others
+//@   ensures otherTablesP(tbl(m))
+//@   label C27.tick.uniform.kept
+//@   ensures old(ptUniform(m)) ==> ptUniform(m)
+//@   label C27.tick.noalias.kept.uniform
+//@   ensures old(ptUniform(m)) && old(noAliasP(tbl(m))) ==> noAliasP(tbl(m))
+//@   label C27.tick.cleared
+//@   ensures len(m.comp.State.ToRemoveFromPTW) == 0
+//@   label C27.tick.idgen
+//@   ensures idGenOK()
+//@   assigns m.comp.State.WalkingTranslations, elems(m.comp.State.WalkingTranslations), m.comp.State.NextPhysicalPage, ptIn, ptPA, ptSz, ptFr, ptInsN, m.comp.State.ToRemoveFromPTW, elems(m.comp.State.ToRemoveFromPTW), canSend, sendCnt, sentTyp, sentVal, issued, key("G|github.com/sarchlab/akita/v5/timing.idGenerator|"), key("G|github.com/sarchlab/akita/v5/timing.idGeneratorInstantiated|"), key("O|timing.sequentialIDGenerator|nextID"), key("O|timing.parallelIDGenerator|nextID")
+//@   loop 0: invariant 0 <= i && i <= len(m.comp.State.WalkingTranslations) && idGenOK()
+//@   loop 0: invariant ref(m.comp.State.WalkingTranslations) == old(ref(m.comp.State.WalkingTranslations)) && off(m.comp.State.WalkingTranslations) == old(off(m.comp.State.WalkingTranslations)) && len(m.comp.State.WalkingTranslations) == old(len(m.comp.State.WalkingTranslations))
+//@   loop 0: invariant growsP(tbl(m)) && otherTablesP(tbl(m)) && addedUniformP(tbl(m), psz(m))
+//@   loop 0: invariant old(ptInsN)[tbl(m)] <= ptInsN[tbl(m)] && ptInsN[tbl(m)] <= old(ptInsN)[tbl(m)] + i
+//@   loop 0: invariant old(ptUniform(m)) ==> ptUniform(m)
+//@   loop 0: invariant old(ptUniform(m)) && old(noAliasP(tbl(m))) ==> noAliasP(tbl(m))
+//@   loop 0: invariant (ref(m.comp.State.ToRemoveFromPTW) == old(ref(m.comp.State.ToRemoveFromPTW)) && off(m.comp.State.ToRemoveFromPTW) == old(off(m.comp.State.ToRemoveFromPTW))) || fresh(m.comp.State.ToRemoveFromPTW)
+//@   loop 1: invariant 0 <= i
+//@   loop 1: invariant (ref(tmp) == old(ref(m.comp.State.WalkingTranslations)) && off(tmp) == old(off(m.comp.State.WalkingTranslations))) || fresh(tmp)
+
+// ---- the wiring check behind `requires ptLog2(tbl(m)) == Log2PageSize` ----
+// Builder.Build (resolvePageTable) refuses an injected page table that reports another page-size exponent than the MMU's:
+// when the table implements the package's pageTable interface (the local `ok` of the type assertion; vm.pageTableImpl
+// does) and the function returns normally, the exponents agree. The panic condition itself mentions that local, which a
+// `panics` clause (entry state) cannot name, hence `panics any`.
+//@ iface mmu.pageTable.GetLog2PageSize()
+//@   trusted
+//@   ensures result == ptLog2(ifaceval(self))
+//@   assigns nothing
+//@ fn validatePageTablePageSize
+//@   property C27
+//@   label C27.validate.match
+//@   ensures ok ==> ptLog2(ifaceval(pt)) == log2PageSize
+//@   panics any
+//@   assigns nothing
